@@ -31,6 +31,10 @@ type vfHQuery struct {
 	WV      float64       `json:"wv,omitempty"`
 	WT      float64       `json:"wt,omitempty"`
 	RRFK    float64       `json:"rrf_k,omitempty"`
+	// how the fusion reaches the search: "" = WithFusion(object built with the weights above);
+	// "kind" = WithFusionKind(kind), i.e. the library's default configuration (weights 1 / 1, K 60);
+	// "none" = nothing is set (only with Fusion == ""): the search's own default fusion
+	FusionVia string `json:"fusion_via,omitempty"`
 	Agg     string        `json:"agg,omitempty"`
 	NP      int           `json:"nprobes,omitempty"`
 	Ef      int           `json:"ef,omitempty"`
@@ -140,6 +144,9 @@ func vfC05Gen(rt *rapid.T) vfC05Case {
 	var liveRefs []int
 	genQuery := func(rt *rapid.T) *vfHQuery {
 		q := &vfHQuery{K: rapid.IntRange(1, nLive+2).Draw(rt, "k")}
+		if rapid.IntRange(0, 24).Draw(rt, "k_extreme") == 0 {
+			q.K = rapid.SampledFrom([]int{math.MaxInt32, math.MaxInt64, 1 << 40, 1000000}).Draw(rt, "k_huge")
+		}
 		what := rapid.IntRange(1, 7).Draw(rt, "query_modalities")
 		if rapid.IntRange(0, 2).Draw(rt, "query_all_modalities") == 0 {
 			what = 7
@@ -184,6 +191,14 @@ func vfC05Gen(rt *rapid.T) vfC05Case {
 		q.WV = rapid.SampledFrom([]float64{1, 0, 0.5, 2, 3}).Draw(rt, "wv")
 		q.WT = rapid.SampledFrom([]float64{1, 0, 0.25, 1.5, 3}).Draw(rt, "wt")
 		q.RRFK = rapid.SampledFrom([]float64{60, 1, 0.5, 100}).Draw(rt, "rrf_k")
+		switch rapid.IntRange(0, 3).Draw(rt, "fusion_via") {
+		case 0:
+			if q.Fusion == "" {
+				q.FusionVia = "none"
+			} else {
+				q.FusionVia = "kind"
+			}
+		}
 		if rapid.IntRange(0, 3).Draw(rt, "thr_on") == 0 {
 			q.Thr = float32(rapid.Float64Range(0, 5).Draw(rt, "thr"))
 		}
@@ -374,7 +389,12 @@ func vfHybridExec(h HybridSearchIndex, q *vfHQuery, fusion Fusion) ([]HybridSear
 	if q.Ef > 0 {
 		s = s.WithEfSearch(q.Ef)
 	}
-	if fusion != nil {
+	switch {
+	case q.FusionVia == "kind" && q.Fusion != "":
+		s = s.WithFusionKind(FusionKind(q.Fusion))
+	case q.FusionVia == "none" && q.Fusion == "":
+		// the search's own default
+	case fusion != nil:
 		s = s.WithFusion(fusion)
 	}
 	return s.Execute()
@@ -414,7 +434,9 @@ func vfHasInternalTie(l []vfScored) bool {
 // exact=false means only validity may be asserted (a tie makes the candidate sets ambiguous,
 // or the vector index is approximate). filterSet is nil when no filter was given.
 func vfHybridExpect(m *vfHybridModel, c *vfC05Case, q *vfHQuery) (cands []vfCand, filterSet map[uint32]bool, vecElig, textElig map[uint32]bool, exact bool, emptyByFilter bool) {
-	exact = c.VecKind == "flat" || len(q.Vec) == 0
+	// an IVF index probing all of its (three) clusters is exact as well (C13): the nprobes override
+	// must reach the vector index for that
+	exact = c.VecKind == "flat" || len(q.Vec) == 0 || c.VecKind == "ivf" && q.NP >= 3
 	var ids []uint32
 	if len(q.Groups) > 0 {
 		groups := q.Groups
@@ -495,8 +517,8 @@ func vfHybridExpect(m *vfHybridModel, c *vfC05Case, q *vfHQuery) (cands []vfCand
 		fusion = "weighted_sum"
 	}
 	wv, wt, rk := q.WV, q.WT, q.RRFK
-	if q.Fusion == "" {
-		wv, wt, rk = 1, 1, 60
+	if q.Fusion == "" || q.FusionVia == "kind" {
+		wv, wt, rk = 1, 1, 60 // the documented default configuration
 	}
 	switch {
 	case len(V) > 0 && len(T) > 0:
@@ -752,6 +774,8 @@ func vfC05Run(c vfC05Case, ctx *vfCtx) *vfViolation {
 			if err != nil {
 				return vfFail("op %d: hybrid search failed: %v", i, err)
 			}
+			ctx.ClassIf(q.FusionVia == "kind", "fusion_set_by_kind(default_config)")
+			ctx.ClassIf(q.FusionVia == "none", "library_default_fusion")
 			if spy.mutated {
 				return vfFail("op %d: the %s fusion mutated the result maps it was given", i, inner.Kind())
 			}
@@ -793,7 +817,7 @@ func vfC05Run(c vfC05Case, ctx *vfCtx) *vfViolation {
 			}
 			ctx.Class("exact_pipeline_checked")
 			ctx.ClassIf(spy.called, "fusion_invoked")
-			if len(q.Vec) > 0 && len(q.Texts) > 0 && len(q.Groups) > 0 && len(cands) > 0 && spy.called {
+			if len(q.Vec) > 0 && len(q.Texts) > 0 && len(q.Groups) > 0 && len(cands) > 0 && (spy.called || q.FusionVia != "") {
 				ctx.NonTrivial()
 			}
 		}
